@@ -293,7 +293,7 @@ class TreeWorld:
         out = float(np.linalg.norm(v[~mask])) if (~mask).any() else 0.0
         tot = float(np.linalg.norm(v))
         if out ** 2 > 1e-20 * tot ** 2 + 1e-24:
-            raise V({"C06", "C11"}, "C06.tree.sector_leak", f"{handle}: weight {out:.3e} (of {tot:.3e}) outside sector {qntot.tolist()} after {self.cur_op}", handle=handle)
+            raise V({"C06", "C11"} | ({"C12"} if self.cur_op.startswith(("evolve", "lockstep")) else set()), "C06.tree.sector_leak", f"{handle}: weight {out:.3e} (of {tot:.3e}) outside sector {qntot.tolist()} after {self.cur_op}", handle=handle)
         # stored labels: each node's qn labels the charge of its subtree for every parent-bond index
         self._check_labels(e, handle)
 
@@ -468,8 +468,8 @@ def op_max_entangled(w, s):
     tid = s["tid"]
     if not w.aux or tid >= len(w.trees) or w.space[tid] != "PQ" or w.partner[tid] is None:
         return "skipped"
-    if any(not (b.is_electron or b.is_phonon) for b in w.p_objs) or not any(b.is_electron for b in w.p_objs):
-        return "skipped"
+    if any(not (b.is_electron or b.is_phonon) for b in w.p_objs) or not any(b.is_electron for b in w.p_objs) or w.spec["qn_size"] != 1:
+        return "skipped"     # the helper is written for electron-phonon models with one quantum number (exciton number)
     if any(bn.n_sets > 2 for bn in w.trees[tid].node_list):
         return "skipped"     # documented layout: one physical set (+ its auxiliary copy) per node
     try:
